@@ -19,6 +19,9 @@ CHECKS = {
     "C34": dict(level="proof", technique=PROOF_TECH, design="DESIGN.md §5 C34",
                 text="every method of the _WeakInstanceDict container (add, replace, _add_unpresent, get, __getitem__, __contains__, contains_state, fast_get_state, safe_discard, _fast_discard, _manage_incoming/removed_state) is proved against a whole-map postcondition: add never overwrites a live different instance (raises, map unchanged), discards remove only the given state, every other key is untouched.",
                 note="weakref liveness constant during a call (GC-race arms proved unreachable sequentially); loading/Session.get paths and the database are outside the proof (bounded complement)"),
+    "C48": dict(level="proof", technique=PROOF_TECH, design="DESIGN.md §5 C48",
+                text="InstanceState._modified_event is proved to maintain, on every exit including the inlined autobegin raising: modified and attached to a session => the state holds a strong reference to its object (quick tier: the attr-is-None paths, 93 obligations; thorough tier: all 317 paths / 1880 obligations incl. committed_state 'first write wins'). Bounded complement: histories with dropped references + gc.collect() + commit compared with SQLite, 8 Session configurations.",
+                note="weakref and _instance_dict pure during the call; _commit_all release and the weak identity map bounded only; GC semantics assumed"),
     "C50": dict(level="proof", technique=PROOF_TECH, design="DESIGN.md §5 C50",
                 text="OrderingList._order_entity, reorder (loop invariant: prefix ordered), append, insert, pop, remove, __delitem__ are proved: the list-model postcondition on the sequence and the representation invariant position(self[i]) == ordering_func(i) restored, for lists of any length. Bounded complement: operation sequences on bound and un-instrumented OrderingLists and association proxies against list/set/dict models.",
                 note="ghost position field; entities distinct; __setitem__ / inherited list methods / proxies bounded only (several known findings)"),
@@ -78,7 +81,7 @@ CHECKS.update({
              "server-dialect processors that consume driver-specific Python types, drivers and servers are outside", "DESIGN.md §5 C09"),
     "C37": B("two-object representation invariant (b in a.children <=> b.parent is a; symmetric membership; one-to-one uniqueness) evaluated after every operation of every in-memory sequence <= 3 (quick) / 4 (thorough) over 50/22/34 operations on o2m, o2o, m2m back_populates pairs, plus flush+expire+reload. Bounded exploration.",
              "in-memory agreement only (plus SQLite reload); handlers recurse through the event system and are outside the pyvc subset", "DESIGN.md §5 C37"),
-    "C48": B("postconditions of InstanceState._modified_event / _commit_all (strong reference held while modified, released after commit) and database == model after dropping every reference + gc.collect() + commit, over all histories <= 4 (quick) / 5 (thorough) of 14 operations on SQLite memory. Bounded exploration.",
+    "_C48_bounded_only": B("postconditions of InstanceState._modified_event / _commit_all (strong reference held while modified, released after commit) and database == model after dropping every reference + gc.collect() + commit, over all histories <= 4 (quick) / 5 (thorough) of 14 operations on SQLite memory. Bounded exploration.",
              "CPython refcount/GC semantics assumed", "DESIGN.md §5 C48"),
     "C49": B("for every mutating method/operator of MutableList/MutableDict/MutableSet obtained by reflection from list/dict/set (an un-overridden one cannot be missed): contents changed => changed() was called, contents equal the builtin's, parent flagged and stored value updated on SQLite; argument catalogue over containers <= 3. Bounded; the domain of method names is covered completely.",
              "that a flagged parent survives every flush/pickle/merge path is only sampled", "DESIGN.md §5 C49"),
